@@ -46,12 +46,13 @@ D2 == {Op(o, <<d, a>>) : o \in {"and", "or", "implies", "iff"}, d \in D1s, a \in
 D3 == {Op("not", <<d>>) : d \in D2} \cup {Op(o, <<d, Op("not", <<d2>>)>>) : o \in {"and", "or"}, d \in {Op("iff", <<P, Q>>), Op("implies", <<LeXY, P>>)}, d2 \in D1s}
 \* a NEGATED COMPOUND sub-formula that is needed in both polarities: below iff, as the condition of an ite, and shared
 \* between a positive and a negative context
+Rb == Sym("rb", TBool)
 NegC == {Op("not", <<c>>) : c \in {Op("and", <<P, Q>>), Op("or", <<P, LeXY>>), Op("implies", <<Q, P>>), Op("iff", <<P, Q>>),
                                     Op("ite", <<P, Q, LeXY>>)}}
-D4 == {Op("iff", <<n, a>>) : n \in NegC, a \in {R, LeXY}} \cup {Op("iff", <<a, n>>) : n \in NegC, a \in {R}}
-      \cup {Op("ite", <<n, a, b>>) : n \in NegC, a \in {R}, b \in {EqBC, Ff}}
-      \cup {Op("and", <<Op("implies", <<n, R>>), Op("implies", <<EqBC, n>>)>>) : n \in NegC}
-      \cup {Op("or", <<Op("and", <<n, R>>), Op("not", <<Op("or", <<n, EqBC>>)>>)>>) : n \in NegC}
+D4 == {Op("iff", <<n, a>>) : n \in NegC, a \in {Rb, LeXY}} \cup {Op("iff", <<a, n>>) : n \in NegC, a \in {Rb}}
+      \cup {Op("ite", <<n, a, b>>) : n \in NegC, a \in {Rb}, b \in {EqBC, Ff}}
+      \cup {Op("and", <<Op("implies", <<n, Rb>>), Op("implies", <<EqBC, n>>)>>) : n \in NegC}
+      \cup {Op("or", <<Op("and", <<n, Rb>>), Op("not", <<Op("or", <<n, EqBC>>)>>)>>) : n \in NegC}
       \cup {Op("iff", <<n, m>>) : n \in NegC, m \in NegC}
 QF == D1f \cup D2 \cup D3 \cup D4
 
@@ -104,6 +105,11 @@ EQS == {Op("and", <<e1, e2, o>>) : e1 \in EqAtoms, e2 \in EqAtoms, o \in Others}
        \cup {Op("and", <<e1, e2, e3, o>>) : e1 \in {Op("equals", <<X, Y>>), Op("equals", <<Y, X>>), Op("equals", <<X, IntC(0)>>)},
                                              e2 \in EqAtoms, e3 \in EqAtoms, o \in {Op("le", <<X, Zz>>)}}
        \cup {Op("and", <<e1, o>>) : e1 \in EqAtoms, o \in Others} \cup EqAtoms
+       \* equalities next to quantifiers that BIND one side of the equality (propagating the other side must not capture)
+       \cup {Op("and", <<e1, Quant(qk, <<BVar(v, TInt)>>, body)>>) :
+                e1 \in {Op("equals", <<X, Y>>), Op("equals", <<Y, X>>), Op("equals", <<Zz, X>>), Op("equals", <<Y, IntC(1)>>)},
+                qk \in {"exists", "forall"}, v \in {"x", "y", "z"},
+                body \in {Op("lt", <<X, Y>>), Op("le", <<Y, Op("plus", <<X, Zz>>)>>), Op("not", <<Op("equals", <<X, Y>>)>>)}}
 
 \* ---- UF formulas for Ackermannization
 TF1 == TFun(TInt, <<TInt>>)
